@@ -884,7 +884,8 @@ PPL::Grid::is_discrete() const {
   // Search for lines in the generator system.
   // (A line with all zero coefficients can be left behind by the
   // removal of space dimensions.)
-  for (dimension_type row = gen_sys.num_rows(); row-- > 1; ) {
+  // (In a non-minimized system the first row need not be a point.)
+  for (dimension_type row = gen_sys.num_rows(); row-- > 0; ) {
     if (gen_sys[row].is_line()
         && !gen_sys[row].all_homogeneous_terms_are_zero()) {
       return false;
